@@ -469,3 +469,52 @@ def check_classifiers(fx, rep, rule):
                                                 init_ok = F.is_call(F.strip(s2["init"]), "core::str::<impl str>::trim")
         rep.check(rule, "%s/parse_throwable" % rule, good and init_ok, loc=F.short_file(b["sp"]), found=desc + ["splitn(trim(line), 2, \": \"): %s" % init_ok],
                   expected="trim; split once at the first \": \"; class = first piece (rejected if it contains a space), message = the optional rest")
+
+
+def check_element_display(fx, rep, rule):
+    """Display for StackFrame / Throwable: templates and argument wiring (what both the text and the typed API print)"""
+    slf = ("in", "self")
+    p = A.one(rep, rule, "Display for StackFrame", A.method(fx, "stacktrace::StackFrame", "fmt", trait="Display"))
+    if p:
+        rep.fn(p)
+        res = S.Sym(fx).eval_body(fx.bodies[p])
+        good = False
+        desc = []
+        for st, (k, v) in res:
+            w = [e for e in st.effects if e[0] == "call" and e[1].endswith("write_fmt")]
+            desc.append([S.tstr(e[2][1])[:160] for e in w])
+        # one write on every path; template and argument order fixed; file falls back to "<unknown>"
+        want_tpl = (("txt", "at "), ("hole",), ("txt", "."), ("hole",), ("txt", "("), ("hole",), ("txt", ":"), ("hole",), ("txt", ")"))
+        okc = bool(res)
+        for st, (k, v) in res:
+            w = [e for e in st.effects if e[0] == "call" and e[1].endswith("write_fmt")]
+            if len(w) != 1 or w[0][2][1][0] != "fmtargs" or w[0][2][1][1] != want_tpl:
+                okc = False
+                continue
+            args = [a[1] for a in w[0][2][1][2]]
+            a_ = fc.assignment(st.conds)
+            has_file = a_.get(("is", mk_field(slf, "file"), "Some"))
+            want_file = mk_payload(mk_field(slf, "file"), "Some", "0") if has_file else ("lit", "str", "<unknown>")
+            if args != [mk_field(slf, "class"), mk_field(slf, "method"), want_file, mk_field(slf, "line")]:
+                okc = False
+        rep.check(rule, "%s/display/StackFrame" % rule, okc, loc=F.short_file(fx.bodies[p]["sp"]), found=desc,
+                  expected='"at {class}.{method}({file or <unknown>}:{line})"')
+    p = A.one(rep, rule, "Display for Throwable", A.method(fx, "stacktrace::Throwable", "fmt", trait="Display"))
+    if p:
+        rep.fn(p)
+        res = S.Sym(fx).eval_body(fx.bodies[p])
+        okc = bool(res)
+        desc = []
+        for st, (k, v) in res:
+            w = [e[2][1] for e in st.effects if e[0] == "call" and e[1].endswith("write_fmt")]
+            desc.append([S.tstr(x)[:120] for x in w])
+            if not (v[0] == "adt" and v[2] == "Ok"):
+                continue      # error-propagation paths
+            a_ = fc.assignment(st.conds)
+            has_msg = a_.get(("is", mk_field(slf, "message"), "Some"))
+            want = [("fmtargs", (("hole",),), (("display", mk_field(slf, "class")),))]
+            if has_msg:
+                want.append(("fmtargs", (("txt", ": "), ("hole",)), (("display", mk_payload(mk_field(slf, "message"), "Some", "0")),)))
+            if w != want:
+                okc = False
+        rep.check(rule, "%s/display/Throwable" % rule, okc, loc=F.short_file(fx.bodies[p]["sp"]), found=desc[:3], expected='"{class}" then ": {message}" iff a message is present')
